@@ -408,7 +408,7 @@ impl Prop for C20 {
         (graph_strategy(&ALL_KINDS, 0, 7, me, &[0, 1], 3), any::<u64>(), prop::bool::weighted(0.3)).prop_map(|(g, sel, absent)| ApiCase { g, sel, absent }).boxed()
     }
     fn random_cases(&self, tier: Tier) -> u32 {
-        tier.pick(3_000, 100_000)
+        tier.pick(30_000, 400_000)
     }
     fn check(&self, case: &ApiCase) -> Outcome {
         let mut out = Outcome::new();
